@@ -15,7 +15,25 @@ out="$(mktemp)"
 if [ "$rc" -ne 0 ] && ! grep -q '^VIOLATION' "$out"; then
   mkdir -p build/crash-logs && cp "$out" "build/crash-logs/$prop-$tier-$(date +%s).log"
   echo "run.sh: the harness ended with status $rc without a verdict (output kept under build/crash-logs); running it once more" >&2
-  /venv/bin/python -m "$mod" "$tier"; rc=$?
+  /venv/bin/python -m "$mod" "$tier" 2>&1 | tee "$out"; rc=${PIPESTATUS[0]}
+  if [ "$rc" -ne 0 ] && ! grep -q '^VIOLATION' "$out"; then
+    # The harness cannot complete against this tree at all (typically: the implementation now raises or returns
+    # a shape the driver cannot even read).  The correspondence between model and code is then not established,
+    # which the protocol reports as a violation without a failing input; the replay names what no longer checks.
+    rdir="${VERIF_REPLAY_DIR:-replays}/$prop"; mkdir -p "$rdir"
+    rp="$(pwd)/$rdir/harness-died-$(date +%s).json"
+    /venv/bin/python - "$out" "$rp" "$prop" "$tier" <<'PY'
+import json, sys
+out, rp, prop, tier = sys.argv[1:5]
+tail = open(out, errors="replace").read()[-4000:]
+json.dump({"property": prop, "kind": "no-failing-input-found", "tier": tier,
+           "no_longer_checks": ["correspondence: the harness could not complete its run against this tree (twice); "
+                                "the tie between model and implementation is not established"],
+           "harness_output_tail": tail, "rerun": f"./run.sh {tier} {prop}"}, open(rp, "w"), indent=1)
+PY
+    echo "VIOLATION property=$prop replay=$rp no-failing-input-found"
+    rc=1
+  fi
 fi
 rm -f "$out"
 exit "$rc"
